@@ -2,6 +2,8 @@
 
 package bitcoin
 
+import secp256k1 "gitlab.com/yawning/secp256k1-voi"
+
 // Verification-only accessors (added to a scratch copy of the tree by /verif).
 
 func VerifSignSchnorr(aux *[32]byte, sk *SchnorrPrivateKey, msg []byte) ([]byte, error) {
@@ -13,4 +15,22 @@ func VerifVerifySchnorrSelf(sk *SchnorrPrivateKey, msg, sig []byte) bool {
 func VerifSchnorrD(sk *SchnorrPrivateKey) []byte { return sk.d.Bytes() }
 func VerifTaggedHash(tag string, vals ...[]byte) []byte {
 	return schnorrTaggedHash(tag, vals...)
+}
+
+// VerifImage returns the raw memory image of everything reachable from the key objects (for frame checks).
+func (k *SchnorrPrivateKey) VerifImage() []byte {
+	var out []byte
+	for _, s := range [](interface{ VerifMont() [4]uint64 }){k.dPrime, k.d} {
+		for _, l := range s.VerifMont() {
+			for i := 0; i < 8; i++ {
+				out = append(out, byte(l>>(8*i)))
+			}
+		}
+	}
+	return append(out, k.publicKey.VerifImage()...)
+}
+
+func (k *SchnorrPublicKey) VerifImage() []byte {
+	out := append([]byte{}, secp256k1.VerifPointImage(k.point)...)
+	return append(out, k.xBytes...)
 }
